@@ -267,6 +267,33 @@ def run_coq_bools(ctx, st, name, header, items, B):
     return res
 
 
+def run_impl(ctx, script, cases, crashed):
+    """Run the cases in 16 subprocesses.  A subprocess that dies (engine crash, import error of a mutated
+    tree) is data, not a harness failure: its cases are re-run one by one and the dead ones get [crashed(msg)]."""
+    from concurrent.futures import ThreadPoolExecutor
+
+    def safe(chunk):
+        try:
+            out = ctx.impl(script, chunk)
+            if isinstance(out, list) and len(out) == len(chunk):
+                return out
+            raise RuntimeError('wrong number of results')
+        except RuntimeError as e:
+            if len(chunk) == 1:
+                return [crashed(str(e)[-400:])]
+            return [safe([c])[0] for c in chunk]
+
+    idx = [list(range(i, len(cases), 16)) for i in range(16)]
+    idx = [ix for ix in idx if ix]
+    with ThreadPoolExecutor(max_workers=16) as ex:
+        outs = list(ex.map(lambda ix: safe([cases[k] for k in ix]), idx))
+    res = [None] * len(cases)
+    for ix, o in zip(idx, outs):
+        for k, r in zip(ix, o):
+            res[k] = r
+    return res
+
+
 def load_corpus(kind):
     out = []
     if CORPUS.is_dir():
@@ -285,15 +312,10 @@ def stream_panel_map(ctx):
                     'contiguity broken; index labels range / reversed / sparse / duplicated; histories rebuild, '
                     'Database.remove (rows or whole individuals); non-trivial = at least 2 individuals or a refusal; '
                     'distinct by (column, dtype, index, history, removed rows)')
-    cases = load_corpus('map') + gen_map_cases(ctx.sub_rng('panel_map'), ctx.n(260, 5000),
+    cases = load_corpus('map') + gen_map_cases(ctx.sub_rng('panel_map'), ctx.n(260, 4000),
                                                ctx.n(8, 40), ctx.n(5, 12))
-    chunks = [cases[i::16] for i in range(16)]
-    chunks = [c for c in chunks if c]
-    outs = ctx.impl_parallel('c09_map.py', chunks)
-    res = [None] * len(cases)
-    for j, (ch, o) in enumerate(zip(chunks, outs)):
-        for k, r in enumerate(o):
-            res[j + 16 * k] = r
+    res = run_impl(ctx, 'c09_map.py', cases,
+                   lambda msg: {'ok': False, 'stage': 'process', 'exc': 'subprocess died', 'msg': msg})
     items = []
     stable = eligible = 0
     for idx, (c, r) in enumerate(zip(cases, res)):
@@ -610,17 +632,12 @@ def stream_panel_ll(ctx):
     groups = []
     for c in load_corpus('ll'):
         groups.append([c])
-    for _ in range(ctx.n(40, 500)):
+    for _ in range(ctx.n(40, 400)):
         base = gen_ll_base(rng, ctx.n(6, 20), ctx.n(4, 10))
         groups.append([base] + [variant(rng, base, k) for k in ('ind', 'rows', 'both', 'relabel')])
     cases = [c for g in groups for c in g]
-    chunks = [cases[i::16] for i in range(16)]
-    chunks = [c for c in chunks if c]
-    outs = ctx.impl_parallel('c09_ll.py', chunks)
-    res = [None] * len(cases)
-    for j, (ch, o) in enumerate(zip(chunks, outs)):
-        for k, r in enumerate(o):
-            res[j + 16 * k] = r
+    res = run_impl(ctx, 'c09_ll.py', cases,
+                   lambda msg: {'runner': {'ok': False, 'exc': 'subprocess died', 'msg': msg}})
     items = []
     for idx, (c, r) in enumerate(zip(cases, res)):
         sizes = [len(rows) for _, rows in blocks_of(c)]
